@@ -1269,6 +1269,10 @@ def history(llb, d, seed, jobs, db, keep_going, with_ninja, want_clean):
         members = set([ci.name]) | (down & (set(c.name for c in w.cmds if cj.name in w.dependents({c.name})) | set([cj.name])))
         stats["nontrivial"].add(("cycle %s len%s" % (cls, "1" if cj is ci else ">1"), jobs, db, keep_going))
         getattr(ci, cls).append(back)
+        if ci not in w.reachable():
+            # without a `default` the root targets are the outputs nobody lists as an input: the edit took the cycle out of the build
+            getattr(ci, cls).remove(back)
+            return None
         record("op", op="declare a dependency cycle", cmd=ci.name, node=back, cls=cls, members=sorted(members))
         for t in twins:
             t.w = w
